@@ -38,6 +38,10 @@ def primitives_for(e):
             m2 = ulrun.MsgPlan(11, nc=2)
             _, b2 = ulrun.frame('PD', pdvs=[(m2.pdvs[0][0], 11, m2.pdvs[0][1], 1)])
             out.append(('PD-partial', lib_decode(b2), {'msg': None}))
+            # a well-framed P-DATA-TF whose content is no part of any DIMSE message (message control header 7): where the
+            # content is looked at (Sta6, Sta7) this is an invalid PDU - the cell of Evt19 says what must happen
+            b3 = bytes([4, 0]) + (10).to_bytes(4, 'big') + (6).to_bytes(4, 'big') + bytes([1, 7, 1, 2, 3, 4])
+            out.append(('PD-invalid-content', lib_decode(b3), {'msg': None, 'as_evt': 19}))
         elif k == 'RJ':
             out.append(('RJ', lib_decode(ulrun.frame('RJ', [1, 2, 3])[1]), {'f': [1, 2, 3]}))
         elif k == 'AB':
@@ -83,7 +87,8 @@ def run_cell(exp, label, prim, detail):
         if exp['artimBefore']:
             p.timer.start()
         t_before = p.timer._start_time
-        env.clock.now += 1.0
+        # Evt18 IS the expiry of ARTIM: let it really have expired; for every other event a second passes
+        env.clock.now += (p.timer._max_seconds + 1.0) if (e == 18 and exp['artimBefore']) else 1.0
         p.primitive = prim
         err = None
         try:
@@ -272,6 +277,15 @@ def main(tier='quick'):
                 if exps is None:
                     exps = [{'st': s, 'ev': e, 'req': req, 'act': 'none', 'next': s, 'artimBefore': s in (2, 13)}]
                 for label, prim, detail in primitives_for(e):
+                    if detail.get('as_evt'):
+                        if s not in (6, 7):
+                            continue
+                        alt = defined.get((s, detail['as_evt'], req))
+                        n_run += 1
+                        results = [run_cell(dict(x, ev=e), label, prim, detail) for x in alt]
+                        for msg in min(results, key=len):
+                            per_cell_fail.setdefault((s, e, req), []).append(msg)
+                        continue
                     n_run += 1
                     results = [run_cell(x, label, prim, detail) for x in exps]
                     # AE-6 has two admissible outcomes; the cell passes when one of them matches
